@@ -35,7 +35,7 @@ pub const HARNESS_CPU_LIMIT_S: f64 = 240.0;
 #[derive(Clone, Copy)]
 enum CaseRef {
     Bytes { monitor: &'static str, ptr: *const u8, len: usize, a: u64, b: u64 },
-    Cfg { monitor: &'static str, cfg: *const crate::cfg::Cfg, owned: bool, wrap: bool, probe: bool },
+    Cfg { monitor: &'static str, cfg: *const crate::cfg::Cfg, owned: bool, wrap: bool, probe: bool, reconf: bool },
     Text { monitor: &'static str, ptr: *const u8, len: usize },
 }
 unsafe impl Send for CaseRef {}
@@ -133,7 +133,7 @@ pub fn case_cfg(monitor: &'static str, cfg: &crate::cfg::Cfg, how: crate::drive:
     if !active() {
         return CaseGuard(false);
     }
-    push(CaseRef::Cfg { monitor, cfg: cfg as *const _, owned: how.owned, wrap: how.wrap, probe: how.probe })
+    push(CaseRef::Cfg { monitor, cfg: cfg as *const _, owned: how.owned, wrap: how.wrap, probe: how.probe, reconf: how.reconf })
 }
 /// Note a case described by a string that outlives the guard (helper tuples).
 #[inline]
@@ -163,8 +163,8 @@ fn render(c: &CaseRef) -> J {
                 }
                 j
             }
-            CaseRef::Cfg { monitor, cfg, owned, wrap, probe } => {
-                J::obj().set("kind", "cfg").set("monitor", monitor).set("owned", owned).set("wrap", wrap).set("probe", probe).set("cfg", (*cfg).to_json())
+            CaseRef::Cfg { monitor, cfg, owned, wrap, probe, reconf } => {
+                J::obj().set("kind", "cfg").set("monitor", monitor).set("owned", owned).set("wrap", wrap).set("probe", probe).set("reconf", reconf).set("cfg", (*cfg).to_json())
             }
             CaseRef::Text { monitor, ptr, len } => {
                 let s = std::slice::from_raw_parts(ptr, len);
